@@ -48,6 +48,7 @@ class MergeModel(object):
         if self.f_init is None or self.f_iter is None:
             raise Inconclusive('_Merger.__init__/__iter__ vanished')
         self._sides()
+        self.isnone_star_tests = []
         self.interp = Interp(repo, Policy(inline=no_inline_algebra, max_depth=depth, split_ifexp=True))
         self.paths = self.interp.run(self.f_iter)
         self.self_t = ('P', self.f_iter.params()[0][0])
@@ -253,6 +254,13 @@ class MergeModel(object):
             r = self.canon_lit(('in', atom[1][3][0], atom[1][1]), pol if k == 'truthy' else not pol, cur)
             if r is not None:
                 return r
+        if k == 'isnone':
+            # `star is None` on a star slot: for operands classified by sort_params (None or a Parameter) this is the
+            # truthiness test; recorded, because an operand built elsewhere may hold another falsy placeholder (C02.R4)
+            b = self.sides.bucket(atom[1])
+            if b is not None and self.proto.kind_at(b[1]) in ('VP', 'VK'):
+                self.isnone_star_tests.append(atom)
+                return (('star', b[0], self.proto.kind_at(b[1])), not pol)
         if k == 'truthy':
             t = atom[1]
             for s, el in cur.items():
